@@ -106,10 +106,14 @@ theorem seed_expands_dots (a b : String) (v : Val)
     expandDots [(a ++ "." ++ b, v)] = .ok [(a, .doc [(b, v)])] :=
   Proofs.C13.seed_expands_dots a b v ha hb
 
-/-- `$setOnInsert` is applied only when inserting. -/
+/-- `$setOnInsert` is applied only when inserting, and then it acts as `$set` (positional paths
+    included: C02); without a `$` in its paths that is `updateFields .set`. -/
 theorem setOnInsert_only_on_insert (spec now body : Val) (d : Val) :
     applyUpdate spec (.doc [("$setOnInsert", body)]) now false d = .ok d ∧
-    applyUpdate spec (.doc [("$setOnInsert", body)]) now true d = updateFields .set now body d :=
+    applyUpdate spec (.doc [("$setOnInsert", body)]) now true d =
+      applyUpdate spec (.doc [("$set", body)]) now true d ∧
+    (positionalUpdate [("$setOnInsert", body)] = false →
+      applyUpdate spec (.doc [("$setOnInsert", body)]) now true d = updateFields .set now body d) :=
   Proofs.C13.setOnInsert_only_on_insert spec now body d
 
 /-- non-vacuity: an upsert on a non-empty collection where nothing matches; the seed carries the
